@@ -299,4 +299,13 @@ example :
     Detect.yearScan U w2 [50, 48] (w2.length + 1) 0 = some 7 := by
   decide
 
+/-- **`detect_context_sensitive` as a whole**: a context-sensitive string (`#1`, `<3`, `No.1`, ...) is detected in a section exactly
+when some string of the source's table occurs in it - `#1` only when its first occurrence is not followed, one character further on,
+by a digit (the source's guard against `#1` inside `#123`-like numbers, at the offset the source uses) -/
+theorem C05_context_detected_iff (U : Detect.UEnv) (text : CPs) :
+    (Detect.detectContext U text).isSome = true ↔
+      ∃ rep ∈ Generated.Tables.contextList, ∃ si, Detect.findSub text rep = some si ∧
+        (rep == cpsOfString "#1" && decide (si + 3 < text.length) && U.isDigit (text.getD (si + 3) 0)) = false :=
+  Detect.detectContext_isSome_iff U text
+
 end Pcfg.C05
